@@ -1,30 +1,21 @@
 //! Ad-hoc experiments (not part of any registered check).
-use memvid_core::{Memvid, PutOptions};
 fn main() {
-    let dir = vh::util::Scratch::new("probe");
-    let p = dir.path("a.mv2");
-    let n: usize = std::env::args().nth(1).and_then(|s| s.parse().ok()).unwrap_or(65091);
-    let with_emb = std::env::args().nth(2).map(|s| s == "emb").unwrap_or(false);
-    let mut m = Memvid::create(&p).unwrap();
-    let payload = vh::gen::gen_blob(0, n as u32, vh::gen::BlobKind::NonUtf8);
-    let mut o = PutOptions::default();
-    o.timestamp = Some(0);
-    o.instant_index = false; o.auto_tag = false; o.extract_dates = false; o.extract_triplets = false;
-    o.uri = Some("mv2://docs/d0.txt".into());
-    let r = if with_emb { m.put_with_embedding_and_options(&payload, vec![1.0], o) } else { m.put_bytes_with_options(&payload, o) };
-    println!("put -> {:?}; frames={} wal={:?} cursors(data_end,payload_end,footer,wal)={:?}", r, m.frame_count(), vh::hist::scan_wal_head(&p), memvid_core::verif_hooks::layout_cursors(&m));
-    for i in 0..m.frame_count() as u64 {
-        let f = m.frame_by_id(i).unwrap();
-        println!("frame {i}: off={} len={} role={:?} chunks={:?}", f.payload_offset, f.payload_length, f.role, f.chunk_count);
-        println!("  canonical: {:?}", m.frame_canonical_payload(i).map(|b| b.len()));
+    let f = std::env::args().nth(1).unwrap();
+    let v: serde_json::Value = serde_json::from_slice(&std::fs::read(f).unwrap()).unwrap();
+    let c: vh::props::c34::Case = serde_json::from_value(v["case"].clone()).unwrap();
+    let text = vh::props::c34::build_text(&c);
+    let needle = std::env::args().nth(2).unwrap();
+    let norm = memvid_core::normalize_text(&text, usize::MAX).unwrap().text;
+    let (chunks, _m) = memvid_core::verif_hooks::plan_text_chunks(&text).unwrap();
+    let lines: Vec<&str> = norm.lines().collect();
+    let idx = lines.iter().position(|l| l.contains(&needle)).unwrap();
+    println!("--- normalized lines around the lost one (line {idx} of {}):", lines.len());
+    for l in &lines[idx.saturating_sub(3)..(idx + 4).min(lines.len())] { println!("  {l}"); }
+    if let Some(k) = std::env::args().nth(3) {
+        for (i, ch) in chunks.iter().enumerate() { for l in ch.lines() { if l.contains(&k) { println!("chunk {i} has line: {l:?}"); } } }
     }
-    println!("commit -> {:?}", m.commit());
-    for i in 0..m.frame_count() as u64 {
-        println!("  canonical after commit: {:?}", m.frame_canonical_payload(i).map(|b| b.len()));
-    }
-    drop(m);
-    let mut m = Memvid::open(&p).unwrap();
-    for i in 0..m.frame_count() as u64 {
-        println!("  canonical after reopen: {:?}", m.frame_canonical_payload(i).map(|b| b.len()));
+    for (i, ch) in chunks.iter().enumerate() {
+        let ls: Vec<&str> = ch.lines().collect();
+        println!("--- chunk {i}: {} chars, {} lines; first: {:?} last: {:?}", ch.chars().count(), ls.len(), ls.first(), ls.last());
     }
 }
